@@ -34,7 +34,9 @@ def collision_pool() -> List[str]:
 
 def free_name(wide: bool = False) -> st.SearchStrategy[str]:
     if not wide:
-        return st.sampled_from(SMALL_NAMES)
+        # mostly the small pool, sometimes a name that is also a value of another level (task, extension, alias ...)
+        return st.one_of(st.sampled_from(SMALL_NAMES), st.sampled_from(SMALL_NAMES), st.sampled_from(SMALL_NAMES),
+                         st.sampled_from(collision_pool()))
     return st.one_of(
         st.sampled_from(SMALL_NAMES),
         st.text(alphabet=WIDE_ALPHABET, min_size=1, max_size=8),
